@@ -3,6 +3,7 @@
 package core
 
 import (
+	"encoding/base64"
 	"encoding/json"
 	"fmt"
 	"os"
@@ -149,6 +150,66 @@ func TestVerifC35RegressRTMPEmptySPS(t *testing.T) {
 		}
 		if v != "" {
 			t.Fatalf("C35 violated: after an unauthenticated RTMP publish with AVC config sps=%x pps=%x: %s", ca.sps, ca.pps, v)
+		}
+	}
+}
+
+// c35KeyH264EmptySprop: an RTSP publisher may announce H264 with an empty element in sprop-parameter-sets
+// ("sprop-parameter-sets=,<pps>"): gortsplib keeps SPS = []byte{} (empty, not nil). stream.unitRemuxerH264 prepends
+// "formatH264.SPS" to every IDR access unit when it is != nil, so readers receive an access unit that starts with a
+// zero-length NAL unit; the HLS muxer (gohlslib muxerSegmenter.writeH264) reads nalu[0]: index out of range in the
+// stream reader's goroutine -> the process dies.
+const c35KeyH264EmptySprop = "c35-h264-empty-sprop-parameter-set"
+
+// c35RegressRTSPPublish: ANNOUNCE (H264 with the given fmtp), SETUP over TCP, RECORD, then n IDR frames as
+// single-NAL-unit RTP packets on the interleaved channel.
+func c35RegressRTSPPublish(srv *c35Srv, path, fmtp string, n int) *c35Input {
+	u := "rtsp://" + srv.addr("rtsp") + "/" + path
+	sdp := "v=0\r\no=- 0 0 IN IP4 127.0.0.1\r\ns=Stream\r\nc=IN IP4 0.0.0.0\r\nt=0 0\r\nm=video 0 RTP/AVP 96\r\na=rtpmap:96 H264/90000\r\na=fmtp:96 " + fmtp + "\r\na=control:trackID=0\r\n"
+	in := &c35Input{L: "rtsp", K: "tcp", Proto: "rtsp", Cls: "regress", Note: "rtsp publish " + path + " fmtp=" + fmtp}
+	in.Segs = append(in.Segs,
+		c35Seg{D: []byte(fmt.Sprintf("ANNOUNCE %s RTSP/1.0\r\nCSeq: 1\r\nContent-Type: application/sdp\r\nContent-Length: %d\r\n\r\n%s", u, len(sdp), sdp)), Wait: true},
+		c35Seg{D: []byte(fmt.Sprintf("SETUP %s/trackID=0 RTSP/1.0\r\nCSeq: 2\r\nTransport: RTP/AVP/TCP;unicast;interleaved=0-1;mode=record\r\n\r\n", u)), Wait: true},
+		c35Seg{D: []byte(fmt.Sprintf("RECORD %s RTSP/1.0\r\nCSeq: 3\r\nSession: {{SESSION}}\r\n\r\n", u)), Wait: true},
+	)
+	for i := 0; i < n; i++ {
+		in.Segs = append(in.Segs, c35Seg{D: c35Interleaved(0, c35RTP(96, true, uint16(100+i), uint32(i)*3000, 0x11223344, c35IDR)), Pause: 30})
+	}
+	return in
+}
+
+func TestVerifC35RegressRTSPEmptySprop(t *testing.T) {
+	if kit.Known(c35KeyH264EmptySprop) {
+		t.Skip("listed as known finding")
+	}
+	if sh := os.Getenv("VERIF_SHARD"); sh != "" && sh != "0" {
+		t.Skip("regression tests run in shard 0 only")
+	}
+	rec := kit.R("TestVerifC35RegressRTSPEmptySprop")
+	t.Cleanup(kit.Flush)
+	srv, err := c35StartCore(false)
+	if err != nil {
+		fmt.Println("VERIF-INCONCLUSIVE: the Core under test did not come up: " + err.Error())
+		t.Fatalf("VERIF-INCONCLUSIVE: %v", err)
+	}
+	defer srv.stop()
+	b64 := base64.StdEncoding.EncodeToString
+	for i, fmtp := range []string{
+		"packetization-mode=1;sprop-parameter-sets=" + b64(c35SPS) + "," + b64(c35PPS), // control: must be accepted
+		"packetization-mode=1;sprop-parameter-sets=," + b64(c35PPS),                    // empty SPS element
+		"packetization-mode=1;sprop-parameter-sets=" + b64(c35SPS) + ",",               // empty PPS element
+		"packetization-mode=1;sprop-parameter-sets=,",                                  // both empty
+	} {
+		in := c35RegressRTSPPublish(srv, fmt.Sprintf("c35rtsp%d", i), fmtp, 6)
+		res := srv.send(in)
+		time.Sleep(500 * time.Millisecond)
+		v := srv.canaries()
+		rec.Case(true, fmt.Sprintf("rtsp publish H264 fmtp %q + 6 IDR frames -> statuses=%v canaries=%q", fmtp, res.Statuses, v), "regression")
+		if i == 0 && (len(res.Statuses) < 3 || res.Statuses[2] != 200) {
+			t.Fatalf("harness: the valid RTSP publisher was not accepted (statuses %v)", res.Statuses)
+		}
+		if v != "" {
+			t.Fatalf("C35 violated: after an unauthenticated RTSP publish with fmtp %q: %s", fmtp, v)
 		}
 	}
 }
